@@ -109,9 +109,7 @@ func emptySources(t *model.Type) []emptySrc {
 		for _, s := range model.NilSites(q) {
 			s.Apply()
 		}
-		if q.ProtoReflect().Has(fd) {
-			out = append(out, emptySrc{fmt.Sprintf("oneof wrapper %s holding nil", fd.Name()), q.ProtoReflect().Get(fd).Message()})
-		}
+		out = append(out, emptySrc{fmt.Sprintf("oneof wrapper %s holding nil", fd.Name()), q.ProtoReflect().Get(fd).Message()})
 	}
 	return out
 }
@@ -470,6 +468,23 @@ func runC09(ctx *Ctx) {
 			}
 		}
 	}
+	for _, t := range ctx.types() {
+		fds := t.Desc.Fields()
+		for i := 0; i < fds.Len(); i++ {
+			fd := fds.Get(i)
+			if fd.ContainingOneof() == nil || fd.Message() == nil {
+				continue
+			}
+			c := &Case{Sub: "nilwrapper", Type: string(t.Name), Args: map[string]string{"field": fmt.Sprint(fd.Number())}}
+			ctx.Eval(1)
+			if err := safely(func() error { return replayC09(ctx, c) }); err != nil {
+				ctx.Violation(c, err.Error())
+				ctx.T.Fail()
+			} else {
+				ctx.Nontrivial(string(t.Name), "nilwrapper", string(fd.Name()))
+			}
+		}
+	}
 	ctx.SetExhaustive(true)
 	ctx.Note("the (source x field x operation) matrix is enumerated completely for every type; the rapid arm below samples populated parents")
 	n := ctx.N(1500, 10000)
@@ -515,6 +530,52 @@ func replayC09(ctx *Ctx, c *Case) error {
 		}
 		if err := emptyBattery(srcs[i].m, func(string) {}); err != nil {
 			return fmt.Errorf("%s of %s: %v", srcs[i].how, t.Name, err)
+		}
+		return nil
+	case "nilwrapper":
+		// a oneof wrapper whose message pointer is nil: the member is SET (to an
+		// empty message) for every accessor alike, as protoimpl reads the same struct
+		fd := t.Desc.Fields().ByNumber(protoreflect.FieldNumber(c.argInt("field")))
+		if fd == nil || fd.ContainingOneof() == nil || fd.Message() == nil {
+			return fmt.Errorf("HARNESS: no such oneof message member")
+		}
+		mk := func() proto.Message {
+			p := t.New()
+			p.ProtoReflect().Mutable(fd)
+			for _, s := range model.NilSites(p) {
+				s.Apply()
+			}
+			return p
+		}
+		p, q := mk(), mk()
+		for _, side := range []struct {
+			name string
+			m    protoreflect.Message
+		}{{"generated reflection", p.ProtoReflect()}, {"protoimpl over the same struct", model.ImplOf(p)}} {
+			n, seen := 0, false
+			side.m.Range(func(rfd protoreflect.FieldDescriptor, v protoreflect.Value) bool {
+				n++
+				seen = seen || rfd.Number() == fd.Number()
+				return true
+			})
+			w := side.m.WhichOneof(fd.ContainingOneof())
+			v := side.m.Get(fd)
+			if !side.m.Has(fd) || n != 1 || !seen || w == nil || w.Number() != fd.Number() || !v.IsValid() || v.Message().IsValid() {
+				return fmt.Errorf("oneof wrapper of %s holding a nil message, read through %s: Has=%v, Range visits %d fields (the member: %v), WhichOneof=%v, Get valid=%v (want true, 1, true, the member, and an empty read-only message)",
+					fd.Name(), side.name, side.m.Has(fd), n, seen, w != nil && w.Number() == fd.Number(), v.IsValid() && v.Message().IsValid())
+			}
+		}
+		set := t.New()
+		set.ProtoReflect().Mutable(fd) // the member set to a real empty message: the same value
+		for _, pair := range [][2]proto.Message{{p, q}, {q, p}, {p, proto.Clone(p)}, {proto.Clone(p), p}, {p, set}, {set, p}} {
+			if !proto.Equal(pair[0], pair[1]) {
+				return fmt.Errorf("two messages whose oneof member %s is set to an empty message (held as nil, cloned, or allocated) are not proto.Equal", fd.Name())
+			}
+		}
+		pb, err1 := det.Marshal(p)
+		sb, err2 := det.Marshal(set)
+		if err1 != nil || err2 != nil || !bytes.Equal(pb, sb) {
+			return fmt.Errorf("oneof member %s held as nil encodes as %x (%v), set to an allocated empty message as %x (%v)", fd.Name(), pb, err1, sb, err2)
 		}
 		return nil
 	case "nilmapvalue":
